@@ -30,6 +30,7 @@ BUS_DEV = W.ia(1, 1, 100)
 SW_CMD = [W.ga(7, 1, i + 1) for i in range(4)]
 SW_STATE = [W.ga(7, 2, i + 1) for i in range(4)]
 SYNC = [True, "init", "expire 60", "every 60", False]
+GA_K = W.ga(7, 3, 1)      # group address with a Data Secure key (Data Secure variant of the world, C18)
 
 REAL = ["xknx.XKNX.start/stop", "xknx.io.KNXIPInterface", "xknx.io.tunnel.UDPTunnel/TCPTunnel", "xknx.io.request_response.*",
         "xknx.io.transport.*", "xknx.io.data_connection.ConnectionHeartbeat", "xknx.core.ConnectionManager",
@@ -96,8 +97,24 @@ def gen(seed: int, tier: str, focus: str) -> dict[str, Any]:
         if transport == "udp" and rng.random() < 0.45:
             policy = {"drop": rng.choice([0.0, 0.05, 0.12]), "dup": rng.choice([0.0, 0.1, 0.2]),
                       "delay": rng.choice([0.0, 0.1]), "delays": [0.02, 0.3, 0.999, 1.001, 1.5]}
+    ds = None
+    if focus == "C18":
+        # Data Secure variant: the interface is started with a keyring holding a key for GA_K; the bus sends plain and genuine
+        # secured group writes to it, the user sends to it, and the same XKNX object is stopped - with a plain frame arriving
+        # while it waits for the DisconnectResponse - and started again
+        for _ in range(rng.choice([1, 3, 6])):
+            tid += 1
+            ops.append({"t": round(rng.uniform(0.0, horizon), 6), "op": "plain_k", "id": tid})
+        for _ in range(rng.choice([1, 3])):
+            tid += 1
+            ops.append({"t": round(rng.uniform(0.0, horizon), 6), "op": "sec_k", "id": tid})
+        for _ in range(rng.choice([0, 2])):
+            tid += 1
+            ops.append({"t": round(rng.uniform(0.0, horizon), 6), "op": "out_k", "id": tid})
+        ds = {"during_stop": rng.random() < 0.7, "stop_lag": rng.choice([0.3, 1.5, None]),
+              "at": rng.choice([0.0005, 0.0015, 0.05, 0.2]), "second_life": rng.random() < 0.8}
     ops.sort(key=lambda o: o["t"])
-    cfg = {"mode": "e2e", "focus": focus, "transport": transport, "horizon": horizon, "batch": 1 if rng.random() < 0.8 else 3,
+    cfg = {"mode": "e2e", "focus": focus, "ds": ds, "transport": transport, "horizon": horizon, "batch": 1 if rng.random() < 0.8 else 3,
            "rate_limit": rng.choice([0, 20, 50]), "auto_reconnect_wait": rng.choice([1, 3]),
            "con_lat": rng.choice([0.002, 0.02, 0.3]), "final_reconnect": rng.random() < 0.5,
            "local_port": rng.choice([0, 53000]), "route_back": transport == "udp" and rng.random() < 0.2}
@@ -186,8 +203,8 @@ def run(plan: dict[str, Any]):
     from xknx.devices import Switch
     from xknx.dpt import DPTArray
     from xknx.exceptions import CommunicationError
-    from xknx.io import ConnectionConfig, ConnectionType
-    from xknx.telegram import GroupAddress, Telegram, TelegramDirection
+    from xknx.io import ConnectionConfig, ConnectionType, SecureConfig
+    from xknx.telegram import GroupAddress, IndividualAddress, Telegram, TelegramDirection
     from xknx.telegram.apci import GroupValueRead, GroupValueWrite
 
     cfg = plan["config"]
@@ -198,12 +215,27 @@ def run(plan: dict[str, Any]):
                            "reads": [], "stop_ret": None, "start": None, "faults_stopped_n": None, "faults_stopped_at": None,
                            "unfinished": None, "final": {}, "udp": udp, "sender": None, "dev": []}
     switches = plan.get("switches") or []
+    ds = cfg.get("ds")
+    ds_key = random.Random(plan["seed"] ^ 0xD5).randbytes(16)
+    ds_seq = [0]
+    obs.update(k_cb=[], k_issue=[], k_dev=[], k_out=[], k_plain=set(), k_sec=set(), k_life=[1])
+
+    class _Keyring:
+        """Stand-in answering the two questions DataSecure.init_from_keyring asks (the interface is a plain tunnel)."""
+
+        def get_data_secure_group_keys(self):
+            return {GroupAddress(GA_K): ds_key}
+
+        def get_data_secure_senders(self):
+            return {IndividualAddress(BUS_DEV): 0}
 
     def bus(cemi: bytes, ch):
         if not cemi or cemi[0] != W.L_DATA_REQ:
             return
         c = W.parse_cemi_ldata(cemi)
         n = R.record("gw_accept", ch.cid, cemi.hex())
+        if c is not None and c["group"] and c["dst"] == GA_K:
+            obs["k_out"].append(cemi)
         if c is not None and c["group"]:
             tp = c["tpdu"]
             if c["dst"] == GA_U and len(tp) >= 4:
@@ -238,6 +270,8 @@ def run(plan: dict[str, Any]):
 
     def cb(tg):
         raw = tg.destination_address.raw
+        if raw == GA_K:
+            obs["k_cb"].append((tid(tg), tg.data_secure, tg.direction.name, obs["k_life"][0], R.record("k_cb", "xknx", tid(tg))))
         if tg.direction == TelegramDirection.INCOMING:
             if raw == GA_IN:
                 obs["cb_in"].append((tid(tg), R.record("cb_in", "xknx", tid(tg))))
@@ -247,7 +281,8 @@ def run(plan: dict[str, Any]):
     async def main():
         cc = ConnectionConfig(connection_type=ConnectionType.TUNNELING if udp else ConnectionType.TUNNELING_TCP,
                               gateway_ip=gw.ip, gateway_port=gw.port, local_ip=net.local_ip, local_port=cfg["local_port"],
-                              route_back=cfg["route_back"], auto_reconnect=True, auto_reconnect_wait=cfg["auto_reconnect_wait"])
+                              route_back=cfg["route_back"], auto_reconnect=True, auto_reconnect_wait=cfg["auto_reconnect_wait"],
+                              secure_config=SecureConfig(keyring=_Keyring()) if ds else None)
         xknx = XKNX(connection_config=cc, rate_limit=cfg["rate_limit"])
         xknx.telegrams = Q()
         obs["xknx"] = xknx
@@ -261,6 +296,13 @@ def run(plan: dict[str, Any]):
             xknx.devices.async_add(d)
             devs.append(d)
         obs["dev"] = devs
+        if ds:
+            from xknx.devices import RawValue
+            xknx.telegram_queue.register_data_secure_group_key_issue_cb(
+                lambda tg: obs["k_issue"].append((tid(tg), obs["k_life"][0])))
+            rk = RawValue(xknx, "rk", payload_length=2, group_address=GroupAddress(GA_K), sync_state=False,
+                          device_updated_cb=lambda d: obs["k_dev"].append((d.resolve_state(), obs["k_life"][0])))
+            xknx.devices.async_add(rk)
         try:
             await xknx.start()
         except CommunicationError:
@@ -291,8 +333,26 @@ def run(plan: dict[str, Any]):
             fr = W.cemi_ldata(W.L_DATA_IND, BUS_DEV, GA_IN, tpci_apci=W.gv_write(i.to_bytes(2, "big")))
             sender.push(client_cid(), fr, {"kind": "ind", "id": i})
 
+        def k_frame(i: int, secured: bool) -> bytes:
+            apdu = bytes((0x00, 0x80)) + i.to_bytes(2, "big")
+            if not secured:
+                obs["k_plain"].add(i)
+                return W.cemi_ldata(W.L_DATA_IND, BUS_DEV, GA_K, tpci_apci=apdu)
+            from . import dsworld as D
+            obs["k_sec"].add(i)
+            ds_seq[0] += 1
+            return D.secure_frame(ds_key, apdu, ds_seq[0], BUS_DEV, GA_K)
+
         def do(op):
             k = op["op"]
+            if k in ("plain_k", "sec_k"):
+                sender.push(client_cid(), k_frame(op["id"], k == "sec_k"), {"kind": k, "id": op["id"]})
+                R.extra_faults["plain_frame_to_keyed_address" if k == "plain_k" else "secured_frame_to_keyed_address"] += 1
+                return
+            if k == "out_k":
+                xknx.telegrams.put_nowait(Telegram(destination_address=GroupAddress(GA_K),
+                                                   payload=GroupValueWrite(DPTArray(tuple(op["id"].to_bytes(2, "big"))))))
+                return
             if k == "tg":
                 put_user(op["id"])
             elif k == "ind":
@@ -348,8 +408,46 @@ def run(plan: dict[str, Any]):
             await xknx.stop()
             obs["stop_ret"] = loop.time()
 
+        if ds and ds["during_stop"]:
+            # a plain frame for the keyed address reaches the client while it waits for the answer to its DisconnectRequest
+            chs = gw.channels.get(client_cid())
+            if ds["stop_lag"] is None:
+                gw.script = dict(gw.script, disconnect=[{"k": "drop"}])
+            else:
+                gw.script = dict(gw.script, disconnect=[{"k": "ok", "lat": ds["stop_lag"]}])
+
+            def late_plain(chs=chs):
+                if chs is None:
+                    return
+                fr = W.tunnelling_request(chs.cid, chs.tx_seq, k_frame(9100, False))
+                chs.tx_seq = (chs.tx_seq + 1) & 0xFF
+                if chs.via[0] == "udp":
+                    gw.sock.sendto(fr, chs.data)
+                else:
+                    chs.via[1].send_to_client(fr)
+                R.extra_faults["plain_frame_to_keyed_address_during_stop"] += 1
+            loop.after(ds["at"], late_plain, label="op")
         st = loop.create_task(stopper())
         await asyncio.wait([st], timeout=60.0)
+        if ds and ds["second_life"] and st.done() and not st.cancelled() and st.exception() is None:
+            # the same XKNX object is started again: whatever the first life left behind must not surface now
+            gw.script = {"expire_channels_after": 120.0}
+            obs["k_life"][0] = 2
+            obs["stop_ret_first"] = obs["stop_ret"]
+            obs["stop_ret"] = None
+            try:
+                await xknx.start()
+                await asyncio.sleep(1.0)
+                sender.push(client_cid(), k_frame(9201, False), {"kind": "plain_k", "id": 9201})
+                sender.push(client_cid(), k_frame(9202, True), {"kind": "sec_k", "id": 9202})
+                xknx.telegrams.put_nowait(Telegram(destination_address=GroupAddress(GA_K),
+                                                   payload=GroupValueWrite(DPTArray((0x23, 0xF3)))))
+                await asyncio.sleep(6.0)
+                R.extra_faults["same_object_started_again"] += 1
+            except CommunicationError:
+                obs["second_start"] = "failed"
+            st = loop.create_task(stopper())
+            await asyncio.wait([st], timeout=60.0)
         obs["unfinished"] = xknx.telegrams._unfinished_tasks   # pylint: disable=protected-access
         if not st.done():
             st.cancel()
@@ -573,3 +671,48 @@ def judge_c35(R, obs):
                 R.violate("C35.once-per-connection", "e2e:read-did-not-reach-the-bus",
                           f"the read of switch {i} after the final fault-free reconnection never arrived at the gateway")
     R.check_escapes("C35.no-escape")
+
+
+def judge_c18(R, obs):
+    """C18 across the seams: the key material lives in CEMIHandler, but it is set up and torn down by KNXIPInterface.start/stop;
+    frames keep arriving through a real tunnel while the object stops and starts."""
+    from . import crypto as C
+    from . import dsworld as D
+    if obs["start"] != "ok":
+        return
+    plain, sec = obs["k_plain"], obs["k_sec"]
+    for (i, flag, direction, life, n) in obs["k_cb"]:
+        if direction != "INCOMING":
+            continue
+        if i in plain:
+            R.violate("C18.plain-to-keyed", "e2e:plain-frame-delivered-on-secured-address" + (":after-restart" if life == 2 else ""),
+                      f"plain group write {i} to the keyed address reached telegram callbacks (life {life})")
+        elif i in sec and flag is not True:
+            R.violate("C15.marked-secure", "e2e:delivered-without-data_secure-flag", f"telegram {i}")
+    for (v, life) in obs["k_dev"]:
+        try:
+            i = int.from_bytes(bytes(v.value), "big") if hasattr(v, "value") else int(v)
+        except Exception:  # pylint: disable=broad-except
+            continue
+        if i in plain:
+            R.violate("C18.plain-to-keyed", "e2e:plain-frame-processed-by-device" + (":after-restart" if life == 2 else ""),
+                      f"plain group write {i} to the keyed address updated the device (life {life})")
+    ids_cb = [i for (i, flag, d, life, n) in obs["k_cb"] if d == "INCOMING"]
+    for i in sec:
+        if ids_cb.count(i) > 1:
+            R.violate("C18.secured-accepted", "e2e:secured-frame-delivered-twice", f"telegram {i}")
+    ds_key = __import__("random").Random(R.plan["seed"] ^ 0xD5).randbytes(16)
+    last = -1
+    for raw in obs["k_out"]:
+        ps = D.parse_secure(raw)
+        if ps is None:
+            R.violate("C18.outgoing-secured", "e2e:plain-frame-sent-to-secured-address", raw.hex())
+            continue
+        if C.ds_open(ds_key, ps["asdu"], ps["scf"], ps["src"], ps["dst"], True, 0, ps["tpci_octet"]) is None:
+            R.violate("C18.outgoing-secured", "e2e:outgoing-secured-frame-does-not-verify", raw.hex())
+        last = max(last, ps["seq"])
+    R.probes["e2e_plain_frames_to_keyed_address"] += len(plain)
+    R.probes["e2e_key_issue_reports"] += len(obs["k_issue"])
+    R.probes["e2e_secured_frames_delivered"] += sum(1 for i in set(ids_cb) if i in sec)
+    R.probes["e2e_outgoing_secured_frames"] += len(obs["k_out"])
+    R.check_escapes("C18.no-raise")
